@@ -490,6 +490,107 @@ func genAuthFacts(repo string, emit func(name, leanDef string, err error)) {
 		emit("avsOwnerCheckReads", "/-- every slices.Contains(list, element) in the AVS precompile methods and keeper entry points: which owner list is consulted for which address -/\ndef avsOwnerCheckReads : List (String × String) := "+xbLeanPairList(reads, "str"), oerr)
 	}
 
+	// ---- task results: where the signer comparison of SetTaskResultInfo sits relative to the switch on the phase
+	{
+		fset, f, err := xbParseGo(repo, "x/avs/keeper/task.go")
+		var sites []string
+		var cases []string
+		if err == nil {
+			fd := xbFindFunc(f, "SetTaskResultInfo", "Keeper")
+			if fd == nil {
+				err = fmt.Errorf("x/avs/keeper/task.go: SetTaskResultInfo not found")
+			} else {
+				isSignerCheck := func(st ast.Stmt) bool {
+					ifs, ok := st.(*ast.IfStmt)
+					if !ok {
+						return false
+					}
+					c := xbNodeText(fset, ifs.Cond)
+					if c != "addr != info.OperatorAddress" && c != "info.OperatorAddress != addr" {
+						return false
+					}
+					for _, b := range ifs.Body.List { // the body must return an error
+						if _, ok := b.(*ast.ReturnStmt); ok {
+							return true
+						}
+					}
+					return false
+				}
+				switchSeen := false
+				for i, st := range fd.Body.List {
+					if isSignerCheck(st) {
+						if switchSeen {
+							sites = append(sites, fmt.Sprintf("top-level:%d:after-switch", i))
+						} else {
+							sites = append(sites, fmt.Sprintf("top-level:%d:before-switch", i))
+						}
+					}
+					if sw, ok := st.(*ast.SwitchStmt); ok && xbNodeText(fset, sw.Tag) == "info.Stage" {
+						switchSeen = true
+						for _, cl := range sw.Body.List {
+							cc := cl.(*ast.CaseClause)
+							name := "default"
+							if len(cc.List) > 0 {
+								var ns []string
+								for _, e := range cc.List {
+									ns = append(ns, xbNodeText(fset, e))
+								}
+								name = strings.Join(ns, ",")
+							}
+							cases = append(cases, name)
+							for _, b := range cc.Body {
+								if isSignerCheck(b) {
+									sites = append(sites, "case:"+name)
+								}
+							}
+						}
+					}
+				}
+				if !switchSeen {
+					err = fmt.Errorf("SetTaskResultInfo: switch info.Stage not found")
+				}
+			}
+		}
+		emit("taskResultSignerCheckSites", "/-- x/avs/keeper/task.go: SetTaskResultInfo — every `if addr != info.OperatorAddress { return … }`: top-level statement index and side of `switch info.Stage`, or the case clause it sits in -/\ndef taskResultSignerCheckSites : List String := "+leanStrList(sites)+"\n/-- the case clauses of `switch info.Stage` -/\ndef taskResultStageCases : List String := "+leanStrList(cases), err)
+		// msg server: which field is passed as `addr`, and which field GetSigners returns
+		fset2, f2, err2 := xbParseGo(repo, "x/avs/keeper/msg_server.go")
+		args := ""
+		if err2 == nil {
+			if fd := xbFindFunc(f2, "SubmitTaskResult", "MsgServerImpl"); fd != nil {
+				ast.Inspect(fd.Body, func(n ast.Node) bool {
+					if c, ok := n.(*ast.CallExpr); ok && xbCalleeName(c) == "SetTaskResultInfo" {
+						var as []string
+						for _, a := range c.Args {
+							as = append(as, xbNodeText(fset2, a))
+						}
+						args = strings.Join(as, ", ")
+					}
+					return true
+				})
+			} else {
+				err2 = fmt.Errorf("msg_server.go: SubmitTaskResult not found")
+			}
+		}
+		fset3, f3, err3 := xbParseGo(repo, "x/avs/types/msg.go")
+		signer := ""
+		if err2 == nil {
+			err2 = err3
+		}
+		if err3 == nil {
+			if fd := xbFindFunc(f3, "GetSigners", "SubmitTaskResultReq"); fd != nil {
+				ast.Inspect(fd.Body, func(n ast.Node) bool {
+					if c, ok := n.(*ast.CallExpr); ok && strings.Contains(xbCalleeName(c), "AccAddressFromBech32") && len(c.Args) == 1 {
+						signer = xbNodeText(fset3, c.Args[0])
+					}
+					return true
+				})
+			} else {
+				err2 = fmt.Errorf("msg.go: SubmitTaskResultReq.GetSigners not found")
+			}
+		}
+		emit("taskResultSignerArg", fmt.Sprintf("/-- msg_server.go: arguments of SetTaskResultInfo in SubmitTaskResult; msg.go: the field SubmitTaskResultReq.GetSigners returns -/\ndef taskResultSignerArg : String := %q\ndef taskResultGetSignersField : String := %q", args, signer), err2)
+	}
+
 	// ---- oracle branch of SigVerificationDecorator
 	{
 		_, f, err := xbParseGo(repo, "app/ante/cosmos/sigverify.go")
